@@ -33,6 +33,9 @@ LINE_KINDS: Dict[str, str] = {
     "indented-code": "    y = g()",
     "blank": "",
     "formfeed": "\x0c",  # a form feed is white space for the parser, not the end of a line
+    # the text of an ignore comment inside a string literal is not a comment
+    "str-bare": f'x = "{IC}"',
+    "str-A+code": f"x = '{IC}[A]'; y = f()",
 }
 
 
@@ -47,6 +50,20 @@ def file_level(lines: Sequence[str], code: str) -> Optional[int]:
     return None
 
 
+def comment_of(line: str) -> str:
+    """The comment of a line of the domain (one-line string literals only): from the first `#` outside quotes."""
+    quote = None
+    for i, ch in enumerate(line):
+        if quote is None:
+            if ch in "\"'":
+                quote = ch
+            elif ch == "#":
+                return line[i:]
+        elif ch == quote:
+            quote = None
+    return ""
+
+
 def suppressing_line(lines: Sequence[str], lineno: int, code: str) -> Optional[int]:
     """0-based index of the comment line that suppresses a diagnostic of `code` on
     1-based line `lineno`: a file-level comment, a comment on the line itself (bare, or
@@ -55,7 +72,7 @@ def suppressing_line(lines: Sequence[str], lineno: int, code: str) -> Optional[i
     fl = file_level(lines, code)
     if fl is not None:
         return fl
-    this = lines[lineno - 1]
+    this = comment_of(lines[lineno - 1])
     if re.search(re.escape(IC) + r"(?!\[)", this) or f"{IC}[{code}]" in this:
         return lineno - 1
     # own-line ignore comments directly above the line: a run of `ignore[...]` comment
@@ -86,6 +103,20 @@ def reference(lines: Sequence[str], diags: Sequence[Tuple[int, str]], enabled: F
         if code in enabled:
             reported.append((lineno, code))
     return reported, used
+
+
+def _tokenizer_comments(contents: str, nlines: int) -> List[str]:
+    import io
+    import tokenize
+
+    out = [""] * nlines
+    try:
+        for tok in tokenize.generate_tokens(io.StringIO(contents).readline):
+            if tok.type == tokenize.COMMENT and tok.start[0] <= nlines:
+                out[tok.start[0] - 1] = tok.string
+    except (tokenize.TokenError, SyntaxError):
+        return [l[l.index("#"):] if "#" in l else "" for l in contents.split("\n")[:nlines]]
+    return out
 
 
 def _wrap(m: Optional["re.Match[str]"]) -> Any:
@@ -159,6 +190,9 @@ class FilterModel:
             logger=Opaque("logger"),
             CONTEXT_LINES=self.context_lines,
             _changes_for_fixer=changes,
+            # which part of each line is a comment is CPython's tokenizer's verdict (not pyanalyze's code): the real
+            # method asks tokenize too; the reference of this model uses its own scanner (comment_of)
+            _comments=lambda: _tokenizer_comments("\n".join(lines) + "\n", len(lines)),
         )
         interp_holder: List[Interp] = []
 
